@@ -397,6 +397,14 @@ fn run_cli_case(c: &CliCase) -> Option<(String, String)> {
     let mut run = Run::new(&args).cwd(&scratch.path);
     if c.stdin {
         run = run.stdin(&bytes);
+        // the producer delivers the bytes at once, or in writes of 61 / 256 / 4096 bytes with pauses (the tool's reads
+        // then return less than it asked for, in the middle of headers and payloads)
+        match fp_model::util::fnv(c.label.as_bytes()) % 4 {
+            1 => run = run.stdin_chunk(61),
+            2 => run = run.stdin_chunk(256),
+            3 => run = run.stdin_chunk(4096),
+            _ => {}
+        }
     }
     let res = run.run();
     if res.crashed() || res.status != Some(0) {
